@@ -797,6 +797,15 @@ def run_property(ctx, pid: str, strict_multi: bool, n_scripted, n_evqe, enum_eve
         for n_pop in ([33, 65] if ctx.quick else [33, 40, 65, 33, 40, 65]):
             evqe(ctx, pid, sk.random_evqe_setup(ctx.rng, quick=True, big_population=n_pop), glits, kept, strict_multi)
             ctx.tally(f"evqe-population:{n_pop}")
+    # hash-equal twins in the initial population (angles -1.0 / -2.0, -1 / -2.0, 0.0 / -0.0 on the same layers): different
+    # circuits that compare equal as EVQEIndividuals; every recorded value must still belong to the individual at its index
+    if pid == "C05":
+        for j, tw in enumerate([[-1.0, -2.0], [-2.0, -1.0], [-1, -2.0], [0.0, -0.0]] if ctx.quick else [[-1.0, -2.0], [-2.0, -1.0], [-1, -2.0], [0.0, -0.0]] * 4):
+            st = sk.random_evqe_setup(ctx.rng, quick=True, family="package")
+            st.update(twins=tw, evaluator=["estimator", "sampler"][j % 2], n_qubits=2, population_size=3 + j % 2, n_initial_layers=1 + j % 2, mutex=False,
+                      max_generations=2, max_evals=None, criterion=None, more=[], tournament=(j % 2 == 1), tournament_size=2 if j % 2 == 1 else None, alpha=1)
+            evqe(ctx, pid, st, glits, kept, strict_multi)
+            ctx.tally("evqe-twins:" + "/".join(repr(x) for x in tw))
     # the solve after a solve during which the backend failed, same solver object
     for i in range(ctx.n(3, 12)):
         evqe(ctx, pid, sk.random_evqe_setup(ctx.rng, quick=True, family="package" if i % 2 == 0 else "evqe", failure=True), glits, kept, strict_multi)
